@@ -31,6 +31,11 @@ import Thanos.Model.ShuffleShard
               none), and per zone the positions math/rand draws for (tenant, zone) (zone `-` when za = 0)
     -> `;`-list: sorted positions (in eps) of the tenant's nodes `i.j.k` | toobig | toofew | stuck
 
+  shardg <za> <rf> <eps> <big> <dflt> <ovs> <req> <series>    one tenant, end to end: selection on the base ring
+      (eps), then the sub-ring over the selected nodes with their production sections (big = `,`-list, per
+      endpoint of eps, of the hashes of its SectionsPerNode sections), then GetN(0..rf-1) for the series
+    -> toobig | toofew | stuck | <G> in positions of eps
+
   route <cfgs> <reqs>                       a history of requests on one multi hashring (with its cache)
       cfgs    `|`-list of <type>:<tenants>    type e ("exact") | x ("") | g ("glob") | o (anything else);
               tenants = `,`-list of hex names / patterns (`-` = the empty name), `~` = no tenant list (default hashring)
@@ -301,6 +306,30 @@ def handle : List String → String
       let answers := ShuffleShard.getCachedSeq compute cap [] (rs.map (·.tenant))
       joinWith ";" ((answers.zip (rs.map (·.tenant))).map fun (a, t) => match a with | some s => s | none => errOf t)
     | _, _, _, _, _, _ => "bad-op"
+  | ["shardg", za, rf, eps, big, dflt, ovs, req, series] =>
+    match parseNat? rf, parseEpsZ eps, (listOf ',' big).mapM (parseNats? '.'), parseNat? dflt, parseOvs ovs,
+      parseShardReq req, parseSeries series with
+    | some rf, some (ztab, eps), some big, some dflt, some ovs, some r, some vs =>
+      if r.globs.length ≠ ovs.length ∨ big.length ≠ eps.length then "bad-op" else
+      let ring := mkRing eps
+      let za := za = "1"
+      let ovs' : List ShuffleShard.Override :=
+        (ovs.zip r.globs).map fun (o, g) => { typ := o.1, size := o.2.1, tenants := o.2.2, glob := g }
+      let posOf (z : Nat) : List Nat :=
+        let key := if za then (ztab[z]?).getD "?" else "-"
+        match r.positions.find? (·.1 == key) with
+        | some p => p.2
+        | none => []
+      match ShuffleShard.tenantShard za ring dflt ovs' r.tenant posOf with
+      | .tooBig => "toobig"
+      | .nodes final =>
+        -- the sub-ring: the selected endpoints with their real zones and their production sections
+        let sub : List Ep := final.filterMap fun i =>
+          match eps[i]?, big[i]? with
+          | some e, some hs => some { az := e.az, hashes := hs }
+          | _, _ => none
+        ketG true rf rf sub final vs
+    | _, _, _, _, _, _, _ => "bad-op"
   | ["route", cfgs, reqs] =>
     match parseCfgs cfgs with
     | some cfgs =>
